@@ -141,6 +141,9 @@ func (isn *InlineSchemaNamer) Name(key string, schema *spec.Schema, aschema *Ana
 		}
 
 		debugLog("track created ref: key=%s, newName=%s, isOAIGen=%t", key, newName, isOAIGen)
+		if isOAIGen {
+			isn.flattenContext.conflict[newName] = struct{}{}
+		}
 		resolved := false
 
 		if _, ok := isn.flattenContext.newRefs[key]; ok {
